@@ -23,13 +23,9 @@ func symStat(tag string, nlink int) *types.Stat {
 // specIdentity is the identity of C02: type+mode, uid/gid, link target, device numbers and, for
 // non-directories, size and mtime.
 func specIdentity(a, b *types.Stat) bool {
-	if a.Mode != b.Mode || a.Uid != b.Uid || a.Gid != b.Gid || a.Linkname != b.Linkname || a.Devmajor != b.Devmajor || a.Devminor != b.Devminor {
-		return false
-	}
-	if os.FileMode(a.Mode)&os.ModeDir == 0 {
-		return a.Size == b.Size && a.ModTime == b.ModTime
-	}
-	return true
+	meta := v.And(a.Mode == b.Mode, a.Uid == b.Uid, a.Gid == b.Gid, a.Linkname == b.Linkname, a.Devmajor == b.Devmajor, a.Devminor == b.Devminor)
+	isDir := os.FileMode(a.Mode)&os.ModeDir != 0
+	return v.And(meta, v.Or(isDir, v.And(a.Size == b.Size, a.ModTime == b.ModTime)))
 }
 
 // VH_C02_samefile: for all pairs of stats (every field full width), sameFile under DiffMetadata
